@@ -390,7 +390,7 @@ pub fn scenarios(prop: &str, tier: &str) -> Vec<Cfg> {
                 let mut c = Cfg::new("C03", k);
                 c.name = format!("{:?} prefill {}", k, pre);
                 c.prefill = (0..pre).map(|_| if k.is_merge() { s("PI") } else { f(Mode::Gate) }).collect();
-                c.specs = if k.is_merge() { vec![] } else { vec![f(Mode::Gate), f(Mode::Ready)] };
+                c.specs = if k.is_merge() { vec![] } else { vec![f(Mode::Gate), f(Mode::Ready), f(Mode::PanicOnce)] };
                 c.ops = ops::POLL | ops::COMPLETE | ops::WAKER_POOL | ops::DROP_SUBJECT | ops::STALE_WAKE;
                 if !k.is_merge() {
                     c.ops |= ops::PUSH;
@@ -452,6 +452,27 @@ pub fn scenarios(prop: &str, tier: &str) -> Vec<Cfg> {
                 c.depth = d;
                 c.epilogue = Epilogue::Drain;
                 v.push(c);
+            }
+            for k in [Kind::FubZ(1), Kind::FubZ(2), Kind::FuZ(1)] {
+                let mut c = Cfg::new("C05", k);
+                c.name = format!("{:?} (zero-sized futures)", k);
+                c.specs = vec![f(Mode::Gate), f(Mode::Ready), f(Mode::WakeReady)];
+                c.ops = ops::PUSH | ops::POLL | ops::COMPLETE | ops::STALE_WAKE;
+                c.depth = d;
+                c.epilogue = Epilogue::Drain;
+                v.push(c);
+            }
+            for n in 1..=3usize {
+                for pre in all_vectors(n, &[f(Mode::Gate), f(Mode::Ready)]) {
+                    let mut c = Cfg::new("C05", Kind::JaZ(n));
+                    c.name = format!("join_all<zero-sized futures>[{}]", pre.iter().map(|p| p.render()).collect::<Vec<_>>().join(","));
+                    c.prefill = pre;
+                    c.ops = ops::POLL | ops::COMPLETE;
+                    c.depth = d;
+                    c.post_ready_polls = 1;
+                    c.epilogue = Epilogue::Drain;
+                    v.push(c);
+                }
             }
             for (k, pre) in family_m() {
                 let mut c = Cfg::new("C05", k);
@@ -583,6 +604,38 @@ pub fn scenarios(prop: &str, tier: &str) -> Vec<Cfg> {
                 }
             }
             v.extend(join_cfgs("C06", if thorough { 4 } else { 3 }, d, 1, Epilogue::DropNow));
+            // many inputs finishing in one poll (at and around the per-poll budget), dropped at every point
+            for n in [60usize, 61, 62, 122, 123] {
+                for kind in [Kind::Ja(n), Kind::Tja(n)] {
+                    for gate_last in [false, true] {
+                        let mut c = Cfg::new("C06", kind);
+                        c.name = format!("{:?} all ready{}", kind, if gate_last { " but the last" } else { "" });
+                        c.prefill = (0..n).map(|i| f(if gate_last && i == n - 1 { Mode::Gate } else { Mode::Ready })).collect();
+                        c.ops = ops::POLL | ops::COMPLETE;
+                        c.focus = Some(vec![(n - 1) as u32]);
+                        c.depth = 4;
+                        c.post_ready_polls = 1;
+                        c.epilogue = Epilogue::DropNow;
+                        c.horizon = 4000;
+                        v.push(c);
+                    }
+                }
+            }
+            // children that panic in poll (the unwinding goes through the crate, the caller catches it)
+            for k in [Kind::Fub(2), Kind::FuCap(1), Kind::Fob(2), Kind::Ja(2), Kind::Tja(2)] {
+                let mut c = Cfg::new("C06", k);
+                c.name = format!("{:?} with a panicking child", k);
+                if k.is_join() {
+                    c.prefill = vec![f(Mode::PanicOnce), f(Mode::Gate)];
+                    c.ops = ops::POLL | ops::COMPLETE;
+                } else {
+                    c.specs = vec![f(Mode::PanicOnce), f(Mode::Gate), f(Mode::Ready)];
+                    c.ops = ops::PUSH | ops::POLL | ops::COMPLETE;
+                }
+                c.depth = d;
+                c.epilogue = Epilogue::DropNow;
+                v.push(c);
+            }
         }
         // ------------------------------------------------------------------------------------ C07
         "C07" => {
